@@ -89,7 +89,7 @@ def step (d : DS) (l : String) : DS × String :=
     | some t, some p, some new =>
       (d, if d.ops == (instantiate Wtf.Gen.AtomicWrite.writeFileAtomic t p new).map (·.op) then "1" else "0")
     | _, _, _ => (d, "bad-op")
-  | ["plan", o, n, i, k] =>
+  | ["plan", o, n, i, k] | ["plan", o, n, i, k, _] =>
     match hexOpt o, Bytes.ofHex n, i.toInt?, k.toNat? with
     | some old, some new, some i, some k =>
       let fs : Fs Nat := match old with | some b => [(0, b)] | none => []
